@@ -146,6 +146,8 @@ class Scope:
 
 def _has_exit(stmts):
     for st in stmts:
+        if isinstance(st, (ast.FunctionDef, ast.AsyncFunctionDef, ast.ClassDef)):
+            continue  # returns inside a nested definition do not leave the enclosing block
         for n in ast.walk(st):
             if isinstance(n, (ast.FunctionDef, ast.Lambda)) and n is not st:
                 continue
@@ -403,7 +405,7 @@ class Evaluator:
 
     def e_Call(self, n, sc, mod):
         fn = self.ev(n.func, sc, mod)
-        args = [self.ev(a, sc, mod) for a in n.args]
+        args = _flatten_pos([self.ev(a, sc, mod) for a in n.args])
         kw = {}
         for k in n.keywords:
             if k.arg is None:
@@ -635,6 +637,14 @@ class Evaluator:
                             if res is not None and res.op in ("closure", "partial"):
                                 fn = res
                                 continue
+                return None, None, None
+            if fn.op == "attr" and fn.obj.op == "sym" and fn.obj.get("cls") is not None:
+                # self.method(...) with the class of `self` known: resolve through the MRO, bind self
+                from .regs import class_lookup
+
+                kref, node = class_lookup(self.repo, fn.obj.cls, fn.name)
+                if isinstance(node, ast.FunctionDef) and not node.decorator_list:
+                    return T("closure", node, kref.mod, fnode=node, scope=Scope(), bound=[], boundkw={}), [fn.obj] + pre, prekw
                 return None, None, None
             if fn.op == "call":
                 res = self.inline(fn)
